@@ -468,6 +468,12 @@ func (e *Enc) baseHeap(gen int, name string, so *Sort) *T {
 		if strings.HasPrefix(name, "M$") && strings.HasSuffix(name, "$has") {
 			e.decls = append(e.decls, fmt.Sprintf("(assert (= (select %s 0) ((as const %s) false)))", sym, so.Val.SMT()))
 		}
+		if strings.HasPrefix(name, "M$") && strings.HasSuffix(name, "$val") {
+			// the value view of the nil map is one fixed (arbitrary) array
+			nv := "nilvals$" + so.Val.KeyS()
+			e.decl(nv, fmt.Sprintf("(declare-const %s %s)", nv, so.Val.SMT()))
+			e.decls = append(e.decls, fmt.Sprintf("(assert (= (select %s 0) %s))", sym, nv))
+		}
 		if strings.HasPrefix(name, "M$") && strings.HasSuffix(name, "$cnt") {
 			e.decls = append(e.decls, fmt.Sprintf("(assert (= (select %s 0) #x0000000000000000))", sym))
 		}
